@@ -104,6 +104,11 @@ def build_message(msg, me_actual, token):
                               "params": {"q": 1}})
     if k == "notif":
         return parse_message({"jsonrpc": "2.0", "method": "notifications/message", "params": {"level": "info"}})
+    if k == "cancelnotif":
+        # the PEER withdraws a request of ITS OWN that happens to carry the same id (ids are per direction): a notification,
+        # which answers nobody's request
+        return parse_message({"jsonrpc": "2.0", "method": "notifications/cancelled",
+                              "params": {"requestId": resolve_id(msg[1], me_actual), "reason": "no longer needed"}})
     if k in ("nullerr", "nullres"):
         # a response that bears NO id: the null-id error a peer sends when it could not read a message (Parse error,
         # Invalid Request), or an id-less result; it answers nobody's request
@@ -335,7 +340,7 @@ def enc_msg(msg, me_actual) -> str:
         return f"(1 {enc_rid(resolve_id(msg[1], me_actual))} {msg[2]})"
     if k == "req":
         return f"(2 {enc_rid(resolve_id(msg[1], me_actual))})"
-    if k in ("notif", "nullerr", "nullres"):
+    if k in ("notif", "nullerr", "nullres", "cancelnotif"):
         return "(3)"          # for the model: a message that bears no id and completes nothing
     if k == "prog":
         return f"(4 {1 if msg[1] else 0} {msg[2]})"
